@@ -25,12 +25,31 @@
 (* registered, switch list, store value, allowance set by the contract call)*)
 (* dirty: a rejected operation changed some store byte (complete multistore *)
 (* dump before/after); the specification never sets it.                     *)
+(*                                                                         *)
+(* Delivery (op.via): "router" = through the application's message router   *)
+(* (stateless validation first, as a transaction or a proposal is run);     *)
+(* "server" = the service implementation the module registered for the      *)
+(* message type, invoked directly (as other modules, the repository's keeper *)
+(* tests and in-process callers do): no stateless validation stands between  *)
+(* the authority string and the handler's own check, so authority strings    *)
+(* that are not account addresses of the chain reach it.                     *)
+(*                                                                         *)
+(* Raw store update (op.ent): the message is a LIST of entries              *)
+(* [cell, old, new] over two cells a, b of the store with symbolic values    *)
+(* cur (the value of the cell before the message), next (the value that      *)
+(* counts as one more application), tmp and other (two further values).     *)
+(* Several entries may name the same cell.  Holds(ent) - every entry's       *)
+(* stated old value equals the value the cell has WHEN THE ENTRY IS REACHED  *)
+(* (i.e. after the earlier entries of the same message) - is computed from   *)
+(* the entries, not from the shape's name.                                   *)
 (***************************************************************************)
 EXTENDS Integers, Sequences, FiniteSets, TLC, Json
 
 CONSTANTS Kind, Routable, StoreKind, RejectOnly, ResetKind,
+          Shape,       \* names of the entry lists (DOMAIN of ShapeEntries) a raw store update is driven with
+          Via,         \* subset of {"router", "server"}
           Auth,        \* subset of {"gov","othermodule","user","empty","gov-hex","gov-otherprefix","gov-suffix-21",
-                       \* "gov-suffix-32","gov-prefix-32"}; an authority is identified by the account it decodes
+                       \* "gov-suffix-32","gov-prefix-32","user-hex","garbage"}; an authority is identified by the account it decodes
                        \* to, so other spellings of the gov bech32 address (upper case) are not a class of their
                        \* own, while longer addresses that merely CONTAIN the gov bytes are other accounts
           MaxApplied   \* bound on the total number of applications
@@ -40,34 +59,64 @@ svars == <<applied, cleared, dirty>>
 vars  == <<svars, op>>
 
 None == "none"
-OldClass == {"match", "mismatch-first", "mismatch-second"}
+Cell == {"a", "b"}
+E(c, o, n) == [cell |-> c, old |-> o, new |-> n]
+(* entry lists of a raw store update; every list whose stated old values all hold leaves both cells at "next" *)
+ShapeEntries ==
+  [ match              |-> << E("a","cur","next"),   E("b","cur","next") >>,
+    mismatch_first     |-> << E("a","other","next"), E("b","cur","next") >>,
+    mismatch_second    |-> << E("a","cur","next"),   E("b","other","next") >>,   \* fails after the first entry was reached
+    \* the same cell twice: the later entry states the value the earlier entry wrote (current when it is reached)
+    chained            |-> << E("a","cur","tmp"),    E("a","tmp","next"),  E("b","cur","next") >>,
+    chained_apart      |-> << E("a","cur","tmp"),    E("b","cur","next"),  E("a","tmp","next") >>,
+    \* the same cell twice: the later entry states the value from before the message, which is no longer current
+    stale              |-> << E("a","cur","tmp"),    E("a","cur","next"),  E("b","cur","next") >>,
+    stale_apart        |-> << E("a","cur","tmp"),    E("b","cur","next"),  E("a","cur","next") >>,
+    stale_repeat       |-> << E("a","cur","next"),   E("b","cur","next"),  E("b","cur","next") >>,
+    \* the later entry states a value that was current neither before the message nor when it is reached
+    stale_back         |-> << E("a","cur","tmp"),    E("a","next","next"), E("b","cur","next") >> ]
+
+(* value of every cell after the entries ent[1..n], starting from "cur" everywhere *)
+RECURSIVE CellsAfter(_, _)
+CellsAfter(ent, n) == IF n = 0 THEN [c \in Cell |-> "cur"]
+                      ELSE [CellsAfter(ent, n - 1) EXCEPT ![ent[n].cell] = ent[n].new]
+(* every stated old value equals the value of its cell when the entry is reached *)
+Holds(ent) == \A i \in 1..Len(ent) : ent[i].cell \in Cell /\ ent[i].old = CellsAfter(ent, i - 1)[ent[i].cell]
+ASSUME Shape \subseteq DOMAIN ShapeEntries
+ASSUME \A s \in DOMAIN ShapeEntries : Holds(ShapeEntries[s]) => CellsAfter(ShapeEntries[s], Len(ShapeEntries[s])) = [c \in Cell |-> "next"]
+
 Abs == [applied |-> applied, cleared |-> cleared, dirty |-> dirty]
-Op(name, kind, auth, pay, old, res) == [name |-> name, kind |-> kind, auth |-> auth, pay |-> pay, old |-> old, res |-> res]
+Op(name, kind, auth, pay, old, via, res) ==
+  [name |-> name, kind |-> kind, auth |-> auth, pay |-> pay, old |-> old, via |-> via,
+   ent |-> IF old \in DOMAIN ShapeEntries THEN ShapeEntries[old] ELSE <<>>, res |-> res]
 
 Init == /\ applied = [k \in Kind |-> 0] /\ cleared = [k \in Kind |-> 0] /\ dirty = FALSE
-        /\ op = Op("Init", None, None, None, None, "ok")
+        /\ op = Op("Init", None, None, None, None, None, "ok")
 
 Rej(o) == /\ op' = [o EXCEPT !.res = "rej"] /\ UNCHANGED svars
 
 (* a privileged message of kind k with authority class au, payload class pay and (raw store update)  *)
-(* old-value class old                                                                               *)
-Priv(k, au, pay, old) ==
-  LET this == Op("Priv", k, au, pay, old, "ok")
+(* entry list old, delivered via v                                                                   *)
+Priv(k, au, pay, old, v) ==
+  LET this == Op("Priv", k, au, pay, old, v, "ok")
       okk  == /\ k \in Routable /\ au = "gov"
               /\ (pay = "valid" \/ (pay = "reset" /\ k \in ResetKind))
-              /\ (k \in StoreKind => old = "match")
+              /\ (k \in StoreKind => Holds(this.ent))
   IN IF ~okk THEN Rej(this) ELSE
      /\ IF pay = "valid" THEN applied' = [applied EXCEPT ![k] = @ + 1] /\ UNCHANGED cleared
                          ELSE cleared' = [cleared EXCEPT ![k] = @ + 1] /\ UNCHANGED applied
      /\ UNCHANGED dirty /\ op' = this
 
-Probe == op' = Op("Probe", None, None, None, None, "ok") /\ UNCHANGED svars
+Probe == op' = Op("Probe", None, None, None, None, None, "ok") /\ UNCHANGED svars
 
+(* the payload class "invalid" is defined relative to the router (most invalid payloads fail its stateless     *)
+(* validation), so direct delivery is driven with the valid and the reset payloads (and, for the third-party  *)
+(* kinds, the empty body the router is driven with)                                                          *)
 Next ==
-  \/ \E k \in Kind \ RejectOnly, au \in Auth :
-     \E pay \in {"valid", "invalid"} \cup (IF k \in ResetKind THEN {"reset"} ELSE {}) :
-        IF k \in StoreKind THEN \E old \in OldClass : Priv(k, au, pay, old) ELSE Priv(k, au, pay, None)
-  \/ \E k \in RejectOnly, au \in Auth \ {"gov"} : Priv(k, au, "invalid", None)
+  \/ \E k \in Kind \ RejectOnly, au \in Auth, v \in Via :
+     \E pay \in (IF v = "router" THEN {"valid", "invalid"} ELSE {"valid"}) \cup (IF k \in ResetKind THEN {"reset"} ELSE {}) :
+        IF k \in StoreKind THEN \E old \in Shape : Priv(k, au, pay, old, v) ELSE Priv(k, au, pay, None, v)
+  \/ \E k \in RejectOnly, au \in Auth \ {"gov"}, v \in Via : Priv(k, au, "invalid", None, v)
   \/ Probe
 
 Spec == Init /\ [][Next]_vars
@@ -86,8 +135,9 @@ C16_OnlyGov == [][A_C16_OnlyGov]_vars
 A_C16_OtherAuthorityRejected == (op'.name = "Priv" /\ op'.auth # "gov") => (op'.res = "rej" /\ applied' = applied /\ cleared' = cleared)
 C16_OtherAuthorityRejected == [][A_C16_OtherAuthorityRejected]_vars
 
-\* a raw store update applies only if the current values equal the stated old values
-A_C16_StoreCompareAndSet == \A k \in StoreKind : (applied'[k] # applied[k] \/ cleared'[k] # cleared[k]) => op'.old = "match"
+\* a raw store update applies only if, for every entry, the current value (when the entry is reached) equals the
+\* stated old value
+A_C16_StoreCompareAndSet == \A k \in StoreKind : (applied'[k] # applied[k] \/ cleared'[k] # cleared[k]) => Holds(op'.ent)
 C16_StoreCompareAndSet == [][A_C16_StoreCompareAndSet]_vars
 
 \* only the named kind takes effect, once
